@@ -180,7 +180,7 @@ def first_diff(prop, ops, model, errclass):
         if d:
             return {"index": i, "op": op, "diff": d, "impl": jsonable_short(a), "model": jsonable_short(b)}, ri, rm
     extra = getattr(prop, "post_check", None)
-    if extra:
+    if extra and not (ops and ops[0].get("_universal")):
         d = extra(ops, ri, rm)
         if d:
             return {"index": len(ops) - 1, "op": None, "diff": d}, ri, rm
@@ -274,14 +274,18 @@ def run_check(pid, tier, seed):
                 hp["pairs_sharing_frozen_cells"] += sum(1 for x in r["ok"]["shared"] if x[3] or x[4])
                 hp["pairs_sharing_mutable_containers"] += sum(1 for x in r["ok"]["shared"] if x[2])
                 hp["objects_changed"] += len(r["ok"]["changed"])
-        nontriv = getattr(prop, "nontrivial", lambda ops, ri: len(ops) >= 3 and any("ok" in r for r in ri))(ops, ri)
+        if ops and ops[0].get("_universal"):
+            nontriv = True
+            stats.setdefault("extra", {})["feature_rich_programs"] = stats.setdefault("extra", {}).get("feature_rich_programs", 0) + 1
+        else:
+            nontriv = getattr(prop, "nontrivial", lambda ops, ri: len(ops) >= 3 and any("ok" in r for r in ri))(ops, ri)
         if new and nontriv:
             stats["nontrivial"] += 1
         if len(samples) < 3 and nontriv:
             samples.append([{k: v for k, v in op.items() if not k.startswith("_")} for op in ops][:12])
 
     def handle(ops, origin):
-        errclass = getattr(prop, "ERRCLASS", False)
+        errclass = getattr(prop, "ERRCLASS", False) and not (ops and ops[0].get("_universal"))
         try:
             d, ri, rm = first_diff(prop, ops, model, errclass)
         except Exception as e:  # noqa: BLE001
@@ -312,7 +316,14 @@ def run_check(pid, tier, seed):
     try:
         for ci in range(n):
             g = G(seed * 1000003 + ci)
-            ops = prop.case(g, tier, ci)
+            every = getattr(prop, "UNIVERSAL_EVERY", 0)
+            if every and ci % every == every - 1:
+                # a feature-rich random program (props/universal.py) in place of the property's own generator
+                import props.universal as universal
+                ops = universal.program(g, ci)
+                ops[0] = {**ops[0], "_universal": True}
+            else:
+                ops = prop.case(g, tier, ci)
             if getattr(prop, "HEAP_SUMMARY", False) and not any(o.get("op") == "heap.summary" for o in ops):
                 # reference-level observation at the end of the program: which user-held objects share cells
                 names = sorted({o[k] for o in ops for k in ("id", "to") if isinstance(o.get(k), str)})
